@@ -23,3 +23,20 @@ func reducerBroadcasted(y tensor.Tensor, x tensor.Tensor, dim int) (o tensor.Ten
 
 	return o, nil
 }
+
+// ranges of the target actually covered by patch source p:
+// an omitted or (0,0) range places the source at offset 0 with its own size
+func patchedRanges(index []tensor.Range, p tensor.Tensor) (ranges []tensor.Range) {
+	shape := p.Shape()
+	ranges = make([]tensor.Range, len(shape))
+
+	for i := range ranges {
+		if i < len(index) && !(index[i].From == 0 && index[i].To == 0) {
+			ranges[i] = index[i]
+		} else {
+			ranges[i] = tensor.Range{From: 0, To: shape[i]}
+		}
+	}
+
+	return ranges
+}
